@@ -81,6 +81,7 @@ struct Limits
     int subimage_mode = 1;   // 0 none, 1 corner-anchored + 1-inset, 2 every sub-rectangle
     int max_sub = 3;         // subsample steps 1..max_sub
     bool conv = true, chan = true;
+    bool probe = false;      // expand the nodes at the depth limit once more, only to count successors that were never seen
 };
 
 template <class Org, class Policy> struct Explorer;
@@ -101,6 +102,9 @@ template <class Org, class Policy> struct Explorer
     std::map<std::string, std::string> model2concrete;
     std::string rootid;
     long states = 0, transitions = 0;
+    // closure probe: nodes at the depth limit are expanded once more only to ask whether every successor was already seen;
+    // beyond == 0 for a root means the search reached a fixpoint (every sequence of any length leads to a state that was checked)
+    bool probing = false; long beyond = 0;
 
     Explorer(vh::Ctx& c, Root<Org>& r, Limits l) : ctx(c), root(r), lim(l)
     {
@@ -115,8 +119,12 @@ template <class Org, class Policy> struct Explorer
             queue.pop_front();
             n->visit(*this);
             if (n->depth < lim.depth) n->expand(*this);
+            else if (lim.probe) { probing = true; n->expand(*this); probing = false; }
         }
         ctx.states += states; ctx.transitions += transitions;
+        if (!lim.probe) {}
+        else if (beyond == 0) ++ctx.witness["roots_closed_under_all_transformations"];
+        else { ++ctx.counters["roots_cut_at_depth_limit"]; ctx.counters["unseen_successors_beyond_depth_limit"] += beyond; }
     }
 };
 
@@ -206,10 +214,11 @@ template <class Org, class Policy>
 template <class V, int Ch, bool Conv>
 void Explorer<Org, Policy>::push(V const& v, Model const& m, std::string const& path, int depth)
 {
-    ++transitions;
     std::string mk = std::to_string(type_id<V>()) + ":" + m.key();
     std::string ck = concrete_key(root.base(), v);
     std::string key = mk + "|" + ck;
+    if (probing) { if (!seen.count(key)) ++beyond; return; }
+    ++transitions;
     auto it = model2concrete.find(mk);
     if (it == model2concrete.end()) model2concrete[mk] = ck;
     else if (it->second != ck) ++ctx.counters["same_model_different_representation"];
